@@ -1671,7 +1671,8 @@ class QueryBuilder(Selectable, Term):  # type:ignore[misc]
         return " ({columns})".format(columns=",".join(term.get_sql(ctx) for term in self._columns))
 
     def _values_sql(self, ctx: SqlContext) -> str:
-        values_ctx = ctx.copy(subquery=True, with_alias=True)
+        # a value in a row defines no name: an aliased term or subquery is inserted without its alias
+        values_ctx = ctx.copy(subquery=True, with_alias=False)
         return " VALUES ({values})".format(
             values="),(".join(
                 ",".join(term.get_sql(values_ctx) for term in row) for row in self._values
